@@ -41,7 +41,12 @@ def cases(draw, hazard):
             else:
                 new = R.sq_body(b)
         elif l[0] == 'qname':
-            new = R.dq_body(b) if l[1][0] == '"' else R.bt_body(b)
+            prevl = next((x for x in reversed(laid[:i]) if x[0] != 'mark'), None)
+            after_dot = l[3].get('force') or (prevl is not None and prevl[1][-1:] in '.])' and l[3].get('gap', ' ') == '')
+            if draw(st.integers(0, 2)) == 0 and not after_dot:
+                new = R.br_body(b)           # [bracket-quoted name]: ended by ']' only
+            else:
+                new = R.dq_body(b) if l[1][0] == '"' else R.bt_body(b)
         elif l[1].startswith('/*'):
             new = R.block_comment(b)
         elif l[1].startswith('--'):
@@ -124,7 +129,7 @@ def _hazard(tier):
 def long_region_cases(draw, tier):
     """region bodies of boundary lengths (the lexer must keep a region opaque whatever its size)"""
     n = draw(st.sampled_from([1000, 4096, 10000, 32768, 65530, 65536, 65540, 70000] + ([131073, 200000] if tier != 'quick' else []))) + draw(st.integers(-2, 2))
-    kind = draw(st.sampled_from(['sq', 'dq', 'bt', 'dollar', 'ml', 'sl']))
+    kind = draw(st.sampled_from(['sq', 'dq', 'bt', 'br', 'dollar', 'ml', 'sl']))
     unit = draw(st.sampled_from(['x', 'x;', 'ab ( ', ' ; ', 'é', '\n;']))
     body = (unit * (n // len(unit) + 1))[:n] + '; y'
     if kind == 'sq':
@@ -133,6 +138,8 @@ def long_region_cases(draw, tier):
         lexeme = ['qname', R.dq_body(body), False, {'region': True, 'name': body}]
     elif kind == 'bt':
         lexeme = ['qname', R.bt_body(body), False, {'region': True, 'name': body}]
+    elif kind == 'br':
+        lexeme = ['qname', R.br_body(body), False, {'region': True, 'name': body}]
     elif kind == 'dollar':
         lexeme = ['str', R.dollar_body(body, draw(st.sampled_from(R.TAGS))), False, {'region': True}]
     elif kind == 'ml':
